@@ -87,6 +87,16 @@ def run(tier, replay=None):
             base = "%s-level%s-history0" % (m.group(1), m.group(2))
             what = {"1": "garbage-filled context, level buffer and output before init", "2": "context reset after another stream", "3": "context re-initialised after an abandoned stream"}[m.group(3)]
             pairs.append(("%s-history-independent|%s level %s: %s" % (m.group(1), m.group(1), m.group(2), what), obs[base], obs[name], {"pair": [base, name]}))
+    HIST = {"1": "garbage-filled context before init", "2": "reset after a gzip header parse abandoned inside the name", "3": "reset after a gzip header parse abandoned inside the extra field",
+            "4": "reset after a stream abandoned inside a stored block", "5": "reset after a zlib stream that asked for a dictionary", "6": "reset after a complete gzip member",
+            "7": "reset after an invalid stream", "8": "reset after set_dict and half a stream", "9": "reset after a gzip header split inside the comment (isal_inflate)"}
+    USE = ["isal_read_gzip_header into caller buffers (name+comment) then body", "isal_read_gzip_header (all optional fields) then body", "gzip member through isal_inflate in 7-byte pieces",
+           "isal_read_zlib_header then body", "raw stored block with 1-byte output", "zlib through isal_inflate"]
+    for name in sorted(obs):
+        m = re.match(r"inflate-use(\d)-history(\d)", name)
+        if m and m.group(2) != "0":
+            base = "inflate-use%s-history0" % m.group(1)
+            pairs.append(("inflate-history-independent|%s: %s" % (USE[int(m.group(1))], HIST[m.group(2)]), obs[base], obs[name], {"pair": [base, name]}))
     # pre-fill pairs through the scenario harness (context/level-buffer contents before init; different chunk memory)
     scns = []
     k = 0
